@@ -375,6 +375,8 @@ def val_eq(it, fr, l, r):
     if isinstance(l, Opaque) and isinstance(r, Opaque):
         if l.what == 'payload' and r.what == 'payload':
             return l.pid == r.pid
+        if l.what == 'dt' and r.what == 'dt':
+            return l.T == r.T
         return z3.BoolVal(l is r)
     if isinstance(l, KeyObj) or isinstance(r, KeyObj):
         return z3.BoolVal(l is r)
@@ -794,6 +796,13 @@ def sym_binop(it, fr, T, l, r):
 
 def sym_order(it, fr, o, l, r):
     tl, tr = pytype_of(l), pytype_of(r)
+    if isinstance(l, Opaque) and isinstance(r, Opaque) and l.what == 'dt' and r.what == 'dt':
+        return SBool({'<': l.T < r.T, '<=': l.T <= r.T, '>': l.T > r.T, '>=': l.T >= r.T}[o])
+    if (isinstance(l, Opaque) and l.what == 'dt') or (isinstance(r, Opaque) and r.what == 'dt'):
+        import datetime as _d
+        other = r if isinstance(l, Opaque) and l.what == 'dt' else l
+        if isinstance(other, _d.datetime):
+            raise Unsupported('symbolic datetime compared with a concrete one')
     pairs = [(str, str), (list, list), (tuple, tuple), (bytes, bytes), ((set, frozenset), (set, frozenset))]
     if not any(issubclass(tl, a) and issubclass(tr, b) for a, b in pairs):
         raise PyExc(TypeError(f"'{o}' not supported between instances of '{tl.__name__}' and '{tr.__name__}'"))
